@@ -16,7 +16,7 @@ next_psuedo_matches push, pop and reset frames as the quote / brace / colon they
 one FSTRING_MIDDLE next to the delimiter; side conditions of the frame invariant are the C10.frames.* obligations.
 handle_fstring / concatenate_strings are verified from their bodies (E1): one JoinedStr over the matched parts, spanning the first part's
 start .. the last part's end, a single Constant exactly when no part is an f-string.  NOT proved: the merging of adjacent Constants
-inside concatenate_strings (opaque loop: inner values/spans by the stand-in only), _decode_fstring_parts (ASSUMED contract), `re` itself.
+inside concatenate_strings (opaque loop: inner values/spans by the stand-in only), what escapes decode to in _decode_fstring_parts (opaque there; its control flow, recursion into nested specs and error location are verified), `re` itself.
 Bounded stand-in: prefix x quote x literal part x field form x layout products vs tokenize / ast.parse of the running CPython 3.12.
 The unchanged tree violates the property on several whole classes of f-strings (doubled braces, escapes in literal parts, `=`
 debug fields, nested fields in specs, specs inside triple quotes, \\N{...}, ...): each class is a known finding keyed by the input
@@ -430,7 +430,7 @@ def standin(rep: Report):
 def run(rep: Report):
     rep.trust("CPython ast / tokenize of the running 3.12 as oracle", "engine/pegir", "engine/gramref", "engine/pyvc", "the repository's pegen front end as grammar reader")
     rep.assume("spec/ref/python312_fstring.gram is a faithful hand transcription of CPython 3.12's f-string rules (no 3.12 source tree offline)",
-               "ASSUMED: the contract of TokenizerState.match (what `re` does; engine/pymatch.py) and the top-only abstraction of the frame stack; _decode_fstring_parts has an ASSUMED contract; the Constant-merging loop of concatenate_strings is opaque (side conditions checked syntactically)",
+               "ASSUMED: the contract of TokenizerState.match (what `re` does; engine/pymatch.py) and the top-only abstraction of the frame stack; what an escape decodes to is opaque in the contract of _decode_fstring_parts; the Constant-merging loop of concatenate_strings is opaque (side conditions checked syntactically)",
                "xonsh constructs inside replacement fields are compared by C05's stand-in",
                "inputs carrying a known-bad feature (see known_findings.json, sites fstring:*) are not compared beyond that finding")
     e1common.file_into(rep, "C10", rep.tier)
